@@ -174,6 +174,15 @@ def casadi(eng):
         v = a[0]
         if isinstance(v, T):
             raise PyRaise(eng.make_exc("NotImplementedError", "DM of MX"))
+        if isinstance(v, (VList, NpArr)) or (isinstance(v, DMVal) and not v._scalar()):
+            # a numeric matrix: a nested list is taken row by row, a 1-D sequence is a column
+            rows = from_value(v)
+            if rows is None:
+                raise PyRaise(eng.make_exc("NotImplementedError", "DM of a non-numeric list"))
+            if rows and not isinstance(rows[0], list):
+                rows = [[x] for x in rows]
+            dmv = DMVal(rows)
+            return Probe(T("const", (dmv,), dm=True, numel=len(rows) * len(rows[0]), shape=(len(rows), len(rows[0]))))
         return Probe(T("const", (v,), dm=True) if not (isinstance(v, (int, float)) and v in (0, 1) and not isinstance(v, bool)) else mx_ctor(eng, None, [v], {}))
     dm.constructor = dm_ctor
     fn = VClass("Function")
@@ -402,6 +411,9 @@ class NpArr(Ext):
     def __init__(self, a):
         self.a = a
 
+    def sym_isinstance(self, eng, cls):
+        return cls.name == "ndarray"
+
     def sym_getattr(self, eng, name):
         if name == "reshape":
             def reshape(eng, *dims, **kw):
@@ -449,14 +461,14 @@ def np_module():
         raw = from_value(data) if not isinstance(data, NpArr) else data.a
         if raw is None:
             raise Unsupported("np.array of a non-numeric value")
-        return NpArr(_np().array(raw, dtype={"int": int, "float": float, "bool": bool}.get(getattr(dt, "name", None))))
+        return NpArr(_np().array(raw, dtype={"int": int, "float": float, "bool": bool}.get(getattr(dt, "name", None) or getattr(dt, "__name__", None))))
 
     def prod(eng, xs):
         r = 1
         for x in (eng.iterate(xs) if not isinstance(xs, NpArr) else xs.a.tolist()):
             r *= x
         return r
-    return ModuleStub("numpy", {"nan": float("nan"), "inf": float("inf"), "array": stub(array), "asarray": stub(array), "prod": stub(prod),
+    return ModuleStub("numpy", {"nan": float("nan"), "inf": float("inf"), "array": stub(array), "asarray": stub(array), "prod": stub(prod), "ndarray": VClass("ndarray"),
                                 "reshape": stub(lambda eng, a, d, **kw: eng.call(eng.getattr(a, "reshape", None, None), [d], kw))})
 
 
@@ -465,7 +477,9 @@ SHAPES = [  # parameters, then per category list of numel (1 = scalar)
     (2, {"states": [3, 1], "alg_states": [1], "inputs": [], "parameters": [1, 1], "constants": [1]}),
     (0, {"states": [1], "alg_states": [], "inputs": [1], "parameters": [], "constants": [1]}),
     (2, {"states": [], "alg_states": [2], "inputs": [1], "parameters": [1, 2], "constants": []}),
+    (1, {"states": [1], "alg_states": [(2, 3)], "inputs": [], "parameters": [1], "constants": []}),     # a 2-D variable; its `max` is a matrix literal
 ]
+MATRIX_LITERAL = [[1.0, 2.0, 3.0], [4.0, 5.0, 6.0]]
 
 
 def h_metadata_function(eng):
@@ -482,9 +496,16 @@ def h_metadata_function(eng):
     for c in cats:
         lst = []
         for i, numel in enumerate(shape[c]):
-            sym = T("sym", (), name="%s%d" % (c[0], i) if c != "parameters" else pnames[i], shape=(numel, 1))
+            vshape = numel if isinstance(numel, tuple) else (numel, 1)
+            numel = vshape[0] * vshape[1]
+            sym = T("sym", (), name="%s%d" % (c[0], i) if c != "parameters" else pnames[i], shape=vshape)
             v = VObj(VClass("Variable"), {"symbol": sym})
             for a in ATTRS:
+                if vshape[1] > 1 and a == "max":
+                    # an array literal attribute, as the generator stores it: a nested list of numbers
+                    v.fields[a] = to_vlist(MATRIX_LITERAL)
+                    attrs_of[(c, i, a)] = "matrix-literal"
+                    continue
                 t = T("attr", (), label="%s%d.%s" % (c, i, a), numel=(1 if eng.choice(2) == 0 else numel) if numel > 1 and a == "min" else 1,
                       affine_all=eng.fresh_bool("aff_all"), affine_in={p: eng.fresh_bool("aff_" + p) for p in pnames})
                 # affine in the whole vector implies affine in each parameter
@@ -549,6 +570,14 @@ def h_metadata_function(eng):
                     break
                 for i, (numel, entry) in enumerate(zip(shape[c], col.args)):
                     src = attrs_of[(c, i, a)]
+                    if src == "matrix-literal":
+                        # the variable's rows in the metadata matrix follow ca.veccat of the 2-D symbol: column by column
+                        dmv = entry.args[0] if isinstance(entry, T) and entry.kind == "const" and entry.args and isinstance(entry.args[0], DMVal) else None
+                        colmajor = [dmv.rows[r_][c_] for c_ in range(len(dmv.rows[0])) for r_ in range(len(dmv.rows))] if dmv is not None else None
+                        want_cm = [MATRIX_LITERAL[r_][c_] for c_ in range(3) for r_ in range(2)]
+                        eng.prove("meta.matrix_literal_attribute_keeps_every_element_on_its_own_row", z3.BoolVal(colmajor == want_cm), got=repr(colmajor), declared=repr(want_cm))
+                        continue
+                    numel = numel[0] * numel[1] if isinstance(numel, tuple) else numel
                     base = _leaf(entry)
                     ok = ok and base is src
                     # a scalar attribute of an array variable is repeated to the variable's size
@@ -562,7 +591,7 @@ def h_metadata_function(eng):
         conds = []
         for blk in blocks:
             leaves = [attrs_of[k] for k in attrs_of]
-        all_affine = z3.And([t.facts["affine_all"] for t in attrs_of.values()]) if attrs_of else z3.BoolVal(True)
+        all_affine = z3.And([t.facts["affine_all"] for t in attrs_of.values() if isinstance(t, T)]) if attrs_of else z3.BoolVal(True)
         eng.prove("meta.rebuild_only_if_affine_in_whole_parameter_vector", all_affine)
         # (P) the affine rebuild evaluates J(0) p + f(0): that equals the attributes only if they ARE affine, and the zero-Hessian test
         # vouches for that only in the absence of the operations it is blind to
